@@ -100,7 +100,10 @@ def compare_replay(scripts, expected, events):
                     diff = "notices state after %s" % e["ev"]
                     e = {"notices": got, "lastTs": e["lastTs"], "lastId": e["lastId"]}
             elif e["ev"] == "Poll":
-                if e["res"] != x["res"]:
+                # sort.Slice is not stable: notices with equal last-repeated (possible only with options.Time) may
+                # come in any order -- compare by membership in the spec's set of sorted orders
+                rs = [r[1] for r in e["res"]]
+                if rs != sorted(rs) or sorted(e["res"], key=lambda r: (r[1], r[0])) != sorted(x["res"], key=lambda r: (r[1], r[0])):
                     diff = "Poll(%s) result" % x["c"]
                     e = {"res": e["res"]}
             if diff:
